@@ -212,21 +212,23 @@ impl Env {
     pub fn expand(&mut self, values: &Env) -> Result<(), Error> {
         let values = values.flatten()?;
 
-        fn expand_envkey(envkey: &EnvKey, values: &HashMap<&String, String>) -> EnvKey {
-            match envkey {
-                EnvKey::Single(key) => {
-                    EnvKey::Single(expand(key, values, IfMissing::Ignore).unwrap())
-                }
-                EnvKey::List(keys) => EnvKey::List({
+        fn expand_envkey(
+            envkey: &EnvKey,
+            values: &HashMap<&String, String>,
+        ) -> Result<EnvKey, Error> {
+            Ok(match envkey {
+                EnvKey::Single(key) => EnvKey::Single(expand(key, values, IfMissing::Ignore)?),
+                EnvKey::List(keys) => EnvKey::List(
                     keys.iter()
-                        .map(|x| expand(x, values, IfMissing::Ignore).unwrap())
-                        .collect()
-                }),
-            }
+                        .map(|x| expand(x, values, IfMissing::Ignore))
+                        .collect::<Result<_, _>>()?,
+                ),
+            })
         }
 
-        for (_, value) in self.inner.iter_mut() {
-            *value = expand_envkey(value, &values);
+        for (key, value) in self.inner.iter_mut() {
+            *value =
+                expand_envkey(value, &values).with_context(|| format!("variable \"{key}\""))?;
         }
 
         Ok(())
